@@ -18,7 +18,7 @@ import (
 	"strings"
 )
 
-var atomicFuncs = map[string]bool{"AddUint64": true, "LoadUint64": true, "StoreUint64": true, "CompareAndSwapUint64": true,
+var atomicFuncs = map[string]bool{"SwapUint64": true, "AddUint64": true, "LoadUint64": true, "StoreUint64": true, "CompareAndSwapUint64": true,
 	"AddInt64": true, "LoadInt64": true, "StoreInt64": true, "AddUint32": true, "LoadUint32": true, "StoreUint32": true,
 	"AddInt32": true, "LoadInt32": true, "StoreInt32": true, "CompareAndSwapUint32": true}
 
